@@ -272,6 +272,8 @@ def check_C15(lines, obs):
     for ln, ob in zip(lines, obs):
         if ln == "note input_unchanged" and ob != "ok":
             return fail(prev or ln, "importing from a DataFrame does not alter the DataFrame handed in", "frame unchanged", ob)
-        if ln.startswith(("fromdf", "setdf")):
+        if ln == "note export_leaves_array_unchanged" and ob != "ok":
+            return fail(prev or ln, "exporting an array (also one holding NaN) to a DataFrame does not alter the array", "array unchanged", ob)
+        if ln.startswith(("fromdf", "setdf", "todf")):
             prev = ln
     return None
